@@ -217,9 +217,21 @@ def _replay_model(col, ctx, name, m, inputs, replay, query, descr, key):
     return False
 
 
-def reach_check(col, ctx, what="path"):
-    """vacuity guard: the path (assumptions + trail + axioms) must be sat"""
-    r, _ = ctx.solve([], kind="reach", full=True)
+def reach_check(col, ctx, what="path", pins=None):
+    """vacuity guard: the path (assumptions + trail + axioms) must be sat.
+    Cheap first: with the inputs pinned to generic rational values (a sat there
+    is a sat); then the unpinned complete query; then the sliced one."""
+    r = "unknown"
+    for pin in (pins or []):
+        r, _ = ctx.solve(list(pin), kind="reach", full=True, timeout_ms=5000)
+        if r == "sat":
+            break
+    if r != "sat":
+        r, _ = ctx.solve([], kind="reach", full=True, timeout_ms=15000)
+    if r == "unknown":
+        r, _ = ctx.solve([z3.BoolVal(True)], kind="reach")
+        if r == "sat":
+            col.note("reachability of %s shown for the sliced constraint set only" % what)
     if r == "sat":
         col.d["reach_sat"] += 1
         return True
@@ -231,7 +243,7 @@ def reach_check(col, ctx, what="path"):
 
 
 def explore_case(col, fn, assumptions, on_ok=None, on_exc=None, timeout_ms=20000,
-                 max_paths=4000, seed=0, reach_every=True):
+                 max_paths=4000, seed=0, reach_every=True, pins=None):
     """explore fn under assumptions; call on_ok(pathresult) / on_exc(pathresult)
     while the path context is current."""
     stats = sc.Stats()
@@ -247,7 +259,7 @@ def explore_case(col, fn, assumptions, on_ok=None, on_exc=None, timeout_ms=20000
             return
         cls = pr.status
         if cls not in reached:
-            if reach_check(col, pr.ctx, cls):
+            if reach_check(col, pr.ctx, cls, pins):
                 reached.add(cls)
         if pr.status == "ok":
             if on_ok:
